@@ -27,6 +27,8 @@ def run(c):
     r4_reverse(c)
     r5_disorder(c)
     r6_reverse_form(c)
+    r7_no_silent_deletion(c)
+    r8_logic_pairing(c)
 
 
 # --------------------------------------------------------------------------- R1
@@ -359,3 +361,86 @@ def r6_reverse_form(c):
     pm = repo.module("annet.rulebook.patching")
     f1 = repo.func("annet.rulebook.patching", "_make_reverse")
     c07.reverse_site(c, pm, f1, f1, f1.args.args[1].arg, f1.args.args[0].arg, "patching._make_reverse", rid="C01.R6")
+
+
+def r7_no_silent_deletion(c):
+    """a logic function gets the diff of its key (buckets of items, each with the pre of its children); whatever it removes from that structure is never
+    seen by patch_from_pre again -- the entry vanishes without a command"""
+    from sa.effects import Effects
+    from rules.c20 import registered_functions
+    repo = c.repo
+    c.rule("C01.R7", "no registered logic function (nor any helper it calls) deletes entries from the diff structure it is handed: `del`, .pop/.popitem/.clear/.remove on anything "
+                     "reached from its diff parameter (a bucket, an item, the pre of an item's children). Buckets are re-bound only as a whole (`diff[Op.X] = ...`), which "
+                     "the decision tables of C01.R2 evaluate")
+    reg = registered_functions(repo)
+    eff = Effects(repo, mode="paths", max_depth=6)
+    c.floor("C01.R7", "registered logic functions", len(reg["logic"]), 20)
+    DELETERS = ("pop", "popitem", "clear", "remove", "discard")
+    seen = set()
+    for name, m, fn in sorted(reg["logic"], key=lambda t: t[0]):
+        c.count("logic_functions")
+        ps = [a.arg for a in fn.args.args]
+        if len(ps) < 3:
+            continue
+        dparam = ps[2]
+        bad = []
+        for s in eff.mutated_params(m, fn.name, fn).get(dparam, []):
+            node = s.root[3] if s.root else s.node
+            is_del = isinstance(node, ast.Delete) or (isinstance(node, ast.Call) and isinstance(node.func, ast.Attribute) and node.func.attr in DELETERS)
+            if is_del:
+                bad.append((s, node))
+        if not bad:
+            c.holds("C01.R7", repo.loc(m, fn), f"logic:{name}", "no deletion reachable from the diff parameter", trivial=True)
+        for s, node in bad:
+            rm = repo.module(s.root[0]) if s.root else s.mod
+            k = (name, s.root[1] if s.root else s.fn_qual, norm(node)[:60])
+            if k in seen:
+                continue
+            seen.add(k)
+            c.violated("C01.R7", repo.loc(rm, node), f"logic:{name}", f"`{norm(node)[:70]}` (in {k[1]}{', reached via ' + '>'.join(s.via) if s.via else ''}) deletes from the diff handed to the logic: "
+                       "whatever else is stored under the deleted entry (an ADDED row grouped under the same key as the REMOVED one, nested changes) is never emitted", key_text=f"delete:{k[1]}")
+
+
+def r8_logic_pairing(c):
+    """ordered_diff reports a reordering as MOVED and rewrite_diff folds a changed block into one entry; only the patch logic of the same name knows what to emit for
+    that (common.ordered removes a moved block before re-creating it, common.rewrite re-creates the whole block).  The compiler must select the two together."""
+    repo = c.repo
+    c.rule("C01.R8", "in rulebook.patching._compile_patching the diff logic and the patch logic of an %ordered (resp. %rewrite) rule are selected under the same condition: "
+                     "the store of the vendor's ordered diff and the store of ORDERED_PATCH_LOGIC (resp. REWRITE_DIFF_LOGIC and REWRITE_PATCH_LOGIC) have equivalent guards")
+    modname = "annet.rulebook.patching"
+    m = repo.module(modname)
+    fn = repo.func(modname, "_compile_patching")
+    c.count("functions")
+    gm = GuardMap(fn)
+    consts = {}
+    for nm in ("ORDERED_PATCH_LOGIC", "REWRITE_PATCH_LOGIC", "REWRITE_DIFF_LOGIC", "MULTILINE_DIFF_LOGIC", "DEFAULT_PATCH_LOGIC"):
+        v = m.toplevel_assign(nm)
+        if isinstance(v, ast.Constant):
+            consts[nm] = v.value
+    if "ORDERED_PATCH_LOGIC" not in consts or "REWRITE_PATCH_LOGIC" not in consts or "REWRITE_DIFF_LOGIC" not in consts:
+        raise AnchorError("rulebook.patching: logic name constants not found")
+
+    def kind_of(v):
+        t = norm(v)
+        for nm, val in consts.items():
+            if t == nm or (isinstance(v, ast.Constant) and v.value == val):
+                return nm
+        if isinstance(v, ast.Call) and isinstance(v.func, ast.Attribute) and v.func.attr == "diff" and v.args and isinstance(v.args[0], ast.Constant) and v.args[0].value is True:
+            return "VENDOR_ORDERED_DIFF"
+        return None
+    stores = {}
+    for n in walk_no_nested(fn):
+        if isinstance(n, ast.Assign) and isinstance(n.targets[0], ast.Subscript) and isinstance(n.targets[0].slice, ast.Constant) and n.targets[0].slice.value in ("logic", "diff_logic") \
+                and "params" in norm(n.targets[0].value):
+            k = kind_of(n.value)
+            if k:
+                stores.setdefault(k, []).append(n)
+    for dk, pk, what in (("VENDOR_ORDERED_DIFF", "ORDERED_PATCH_LOGIC", "ordered"), ("REWRITE_DIFF_LOGIC", "REWRITE_PATCH_LOGIC", "rewrite")):
+        ds, ps_ = stores.get(dk, []), stores.get(pk, [])
+        if not ds or not ps_:
+            raise AnchorError(f"_compile_patching: selection of the {what} diff/patch logic not found")
+        fd = G.Or(*[gm.formula(x, alias=True) for x in ds])
+        fp = G.Or(*[gm.formula(x, alias=True) for x in ps_])
+        c.check("C01.R8", G.equivalent(fd, fp), repo.loc(m, ps_[0]), f"_compile_patching/{what}-pair", f"the {what} diff logic is selected under {G.show(fd)} but the {what} patch logic under "
+                f"{G.show(fp)}: a rule can get the {what} diff with another patch logic — its MOVED / rewritten entries are then re-typed in place (nothing moves, the next diff is "
+                "not empty, the same commands are emitted on every run)", key_text=f"{what}-pair")
